@@ -99,7 +99,7 @@ func genSelection(r *Rng, names []string) []string {
 func snapshot(res jsonapi.Resource) map[string]string {
 	m := map[string]string{"id": sxVal(res.Get("id"))}
 	t := res.GetType()
-	for _, f := range t.Fields() {
+	for _, f := range fieldsIndep(t) {
 		v := res.Get(f)
 		if ids, ok := v.([]string); ok { // order of to-many IDs may change
 			c := append([]string{}, ids...)
@@ -111,14 +111,38 @@ func snapshot(res jsonapi.Resource) map[string]string {
 	return m
 }
 
+// resTruth: what the generator wrote into a resource - the type it was created with, its ID and,
+// for every field, the value written (the kind's zero for a field never set). The oracles
+// compare the output with this, not with what the resource's own GetType / Get say.
+type resTruth struct {
+	typ  jsonapi.Type
+	id   string
+	vals map[string]any
+}
+
+// zeroFieldIndep: the zero value of a field of the type (attribute: zeroIndep; to-one: "";
+// to-many: an empty list).
+func zeroFieldIndep(t jsonapi.Type, name string) any {
+	if a, ok := t.Attrs[name]; ok {
+		return zeroIndep(a.Type, a.Nullable)
+	}
+	if t.Rels[name].ToOne {
+		return ""
+	}
+	return []string{}
+}
+
 // checkResourceObject: C03/C04 clauses on one resource object of the output tree.
 // truth, when the generator knows it, is what was written into the resource (for a wrapped
-// struct: what the struct's own fields hold): the related IDs are compared with it rather
-// than with what the resource's getter says.
-func checkResourceObject(v *verdicts, n *jnode, res jsonapi.Resource, prepath string, fields []string, relData map[string][]string, truth map[string]any) {
+// struct: what the struct's own fields hold): type, ID and related IDs are compared with it
+// rather than with what the resource's getters say (only a resource the generator has no
+// record of - truth nil - is asked).
+func checkResourceObject(v *verdicts, n *jnode, res jsonapi.Resource, prepath string, fields []string, relData map[string][]string, truth *resTruth) {
 	related := func(name string) any {
-		if t, ok := truth[name]; ok {
-			return t
+		if truth != nil {
+			if t, ok := truth.vals[name]; ok {
+				return t
+			}
 		}
 		return res.Get(name)
 	}
@@ -126,8 +150,14 @@ func checkResourceObject(v *verdicts, n *jnode, res jsonapi.Resource, prepath st
 		v.fail("C03,C04", "resource object is not an object")
 		return
 	}
-	typ := res.GetType()
-	id := res.Get("id").(string)
+	var typ jsonapi.Type
+	var id string
+	if truth != nil {
+		typ, id = truth.typ, truth.id
+	} else {
+		typ = res.GetType()
+		id = res.Get("id").(string)
+	}
 	if t := n.get("type"); t == nil || t.kind != 's' || t.text != typ.Name {
 		v.fail("C03", "type member")
 	}
@@ -247,16 +277,18 @@ type delegRes struct {
 	jsonapi.Resource
 }
 
-func genMarshalRes(r *Rng, typ jsonapi.Type, o *Out) (jsonapi.Resource, map[string]any) {
-	res, vals := genMarshalRes0(r, typ, o)
+func genMarshalRes(r *Rng, typ jsonapi.Type, o *Out) (jsonapi.Resource, *resTruth) {
+	res, vals, id := genMarshalRes0(r, typ, o)
+	truth := &resTruth{typ: typ, id: id, vals: vals}
 	if _, soft := res.(*jsonapi.SoftResource); soft && r.chance(1, 6) {
 		o.stat("res.own-implementation")
-		return &delegRes{ID: "not-the-id", Resource: res}, vals
+		return &delegRes{ID: "not-the-id", Resource: res}, truth
 	}
-	return res, vals
+	return res, truth
 }
 
-func genMarshalRes0(r *Rng, typ jsonapi.Type, o *Out) (jsonapi.Resource, map[string]any) {
+// genMarshalRes0 returns the resource, the values written into it and the ID it was given.
+func genMarshalRes0(r *Rng, typ jsonapi.Type, o *Out) (jsonapi.Resource, map[string]any, string) {
 	vals := genFieldVals(r, typ)
 	for k, v := range vals {
 		vals[k] = utf8ify(v)
@@ -279,37 +311,37 @@ func genMarshalRes0(r *Rng, typ jsonapi.Type, o *Out) (jsonapi.Resource, map[str
 	if r.bool() {
 		o.stat("res.soft")
 		if r.chance(1, 5) {
-			return newSoftShrunk(r, typ, mStrPool[r.IntN(len(mStrPool))], vals, o), vals
+			id := mStrPool[r.IntN(len(mStrPool))]
+			return newSoftShrunk(r, typ, id, vals, o), vals, id
 		}
 		sr := newSoftVia(r, typ, o)
 		res = sr
 		if r.chance(1, 3) {
 			// only some of the fields are ever set: the others read their zero value
 			o.stat("res.soft-partly-set")
-			sr.SetID(mStrPool[r.IntN(len(mStrPool))])
+			id := mStrPool[r.IntN(len(mStrPool))]
+			sr.SetID(id)
 			for _, k := range sortedKeys(vals) {
 				if r.bool() {
 					sr.Set(k, cloneVal(vals[k]))
-				} else if a, ok := typ.Attrs[k]; ok {
-					vals[k] = jsonapi.GetZeroValue(a.Type, a.Nullable)
-				} else if typ.Rels[k].ToOne {
-					vals[k] = ""
 				} else {
-					vals[k] = []string{}
+					vals[k] = zeroFieldIndep(typ, k) // (the harness's own zero, not GetZeroValue's)
 				}
 			}
-			return res, vals
+			return res, vals, id
 		}
 	} else {
 		o.stat("res.wrapped")
 		if r.bool() {
 			o.stat("res.struct-literal")
-			return newWrappedLiteral(typ, mStrPool[r.IntN(len(mStrPool))], vals), vals
+			id := mStrPool[r.IntN(len(mStrPool))]
+			return newWrappedLiteral(typ, id, vals), vals, id
 		}
 		res = newWrapped(typ)
 	}
-	fill(res, mStrPool[r.IntN(len(mStrPool))], vals)
-	return res, vals
+	id := mStrPool[r.IntN(len(mStrPool))]
+	fill(res, id, vals)
+	return res, vals, id
 }
 
 func suiteMarshal(r *Rng, n int, thorough bool, o *Out) {
@@ -339,7 +371,7 @@ func suiteMarshal(r *Rng, n int, thorough bool, o *Out) {
 			}
 		}
 		prepath := prefixes[r.IntN(len(prefixes))]
-		fields := genSelection(r, typ.Fields())
+		fields := genSelection(r, fieldsIndep(typ))
 		relData := map[string][]string{}
 		if r.chance(3, 4) {
 			relData[tname] = genSelection(r, sortedKeys(typ.Rels))
@@ -348,7 +380,7 @@ func suiteMarshal(r *Rng, n int, thorough bool, o *Out) {
 			relData["other"] = []string{"x"}
 		}
 		if r.chance(1, 3) { // C01's case: every field and every relationship's data
-			fields = append([]string{}, typ.Fields()...)
+			fields = append([]string{}, fieldsIndep(typ)...)
 			relData[tname] = sortedKeys(typ.Rels)
 			r.Shuffle(len(fields), func(i, j int) { fields[i], fields[j] = fields[j], fields[i] })
 		}
@@ -394,11 +426,11 @@ func suiteMarshal(r *Rng, n int, thorough bool, o *Out) {
 		case back == nil:
 			v.fail("C01", "the marshaled resource is rejected")
 		default:
-			if m := sameResource(res, back, fields, relData[tname]); m != "" {
+			if m := sameResource(res, back, fields, relData[tname], truth); m != "" {
 				v.fail("C01", "round trip: "+m)
 			}
 		}
-		if len(fields) >= len(typ.Fields()) {
+		if len(fields) >= len(fieldsIndep(typ)) {
 			o.stat("roundtrip.all-fields")
 		}
 		// C11: repeat, and permute the order-irrelevant parts
